@@ -506,11 +506,18 @@ class Check:
                        "broken_obligations": unexplained}, open(path, "w"), indent=1)
             lines.append("VIOLATION property=%s replay=%s no-failing-input-found" % (pid, path))
             nviol += 1
+        # obligations whose failure is entirely accounted for by listed known findings are reported separately: they are
+        # not claimed (the property is known not to hold at those inputs), so they are neither counted as obligations
+        # nor as discharged
+        explained = [o for o in broken if o not in unexplained]
+        counted = [o for o in self.obligations if o not in explained]
         ev = {
             "property_id": pid, "tier": self.tier, "seed": self.seed, "level": "proof",
             "coverage": {
-                "obligations": len(self.obligations),
-                "discharged": sum(1 for o in self.obligations if o["ok"]),
+                "obligations": len(counted),
+                "discharged": sum(1 for o in counted if o["ok"]),
+                "explained_by_known_findings": [{"name": o["name"], "detail": o["detail"][:200]} for o in explained],
+                "known_findings_demonstrated": [c["key"] for c in self.counterexamples if c["key"] in known_keys],
                 "checker_cmd": self.checker_cmd,
                 "trusted_base": self.trusted,
                 "evaluations": self.evaluations,
@@ -529,6 +536,6 @@ class Check:
         for l in lines:
             print(l, flush=True)
         print("%s %s tier=%s seed=%d obligations=%d discharged=%d evaluations=%d wall=%.1fs" % (
-            pid, "VIOLATED" if nviol else "ok", self.tier, self.seed, len(self.obligations),
+            pid, "VIOLATED" if nviol else "ok", self.tier, self.seed, ev["coverage"]["obligations"],
             ev["coverage"]["discharged"], self.evaluations, ev["wall_s"]), flush=True)
         return 1 if nviol else 0
